@@ -965,6 +965,9 @@ static std::vector<ClassEntry> classTable()
         entry("PubSubSubscriptionEvent", "http://jabber.org/protocol/pubsub#event", { "jid", "node", "state", "subId", "expiry" },
             [=](const S &o) {
                 if (o.configurationSupport() != S::Unavailable) g_outsideModel = true;
+                // a valid date-time that datetimeToString() cannot print (UTC year > 9999) is written as expiry="": recorded finding
+                // C02:not-fixpoint:PubSubSubscriptionEvent; the schema's date-time type has no such value
+                if (o.expiry().isValid() && QXmppUtils::datetimeToString(o.expiry()).isEmpty()) g_outsideModel = true;
                 return Vals { vS(o.jid()), vS(o.node()), stateV(o), vS(o.subId()), vD(o.expiry()) };
             },
             [=](const Vals &v) { S o; o.setJid(v.at(0).s); o.setNode(v.at(1).s); o.setState(stateOf(v.at(2))); o.setSubId(v.at(3).s); o.setExpiry(dateOf(v.at(4))); return o; });
@@ -1237,6 +1240,8 @@ int main(int argc, char **argv)
             { "FastFeature", "<fast xmlns=\"urn:xmpp:fast:0\" tls-0rtt=\"true\"/>" },
             // MAM query id read from `queryId`, written as `queryid`: the first pass writes it, the second loses it (recorded finding)
             { "MamQueryIq", "<query xmlns=\"urn:xmpp:mam:2\" queryId=\"q1\"/>" },
+            // expiry in UTC year 10000: valid, written as expiry="" (datetimeToString gives nothing), dropped by the second pass (recorded finding)
+            { "PubSubSubscriptionEvent", "<subscription jid=\"a@b\" expiry=\"9999-12-31T23:59:59-01:00\"/>" },
         };
         for (auto &row : CORPUS)
             for (auto &c : table)
